@@ -254,6 +254,11 @@ func changeLogSuites() []*suite {
 				h0 := c.Hash()
 				eff0 := redoEffect(c)
 				cNoOld := *c
+				cNoOld.OldVal = nil
+				if ev, ok := cNoOld.NewVal.(*types.Event); ok && ev != nil {
+					// the derived fields of an event are documented as "not secured by consensus" and are not encoded
+					cNoOld.NewVal = &types.Event{Address: ev.Address, Topics: ev.Topics, Data: ev.Data}
+				}
 				a.soft = unreach
 				dec, enc, ok := roundTrip(a, sn, idx, &cNoOld, func() interface{} { return new(types.ChangeLog) }, false, true, "")
 				a.soft = ""
